@@ -22,6 +22,16 @@ Clauses:
   C15.optima_qtt.valid         power-of-two shapes, any k: TT indices inside bounds, values equal the entries, ordered
   C15.optima_qtt.full          k >= number of elements: exact min / max, equal to optima_tt's values
   C15.optima_qtt.reject        unequal or non-power-of-two mode sizes -> ValueError
+  C15.beam.no_orth             optima_tt_beam(to_orth=False, p = None / int / the stabilised form): valid indices for
+                               every k, exact with a full beam (dense reference taken BEFORE the call: the routine
+                               rescales the boundary core of its argument in place - recorded as DOUBTFUL, disabled)
+  C15.many_modes               d = 20..500 (no dense reference; own chain products): valid answers whose values equal the
+                               entries, ordered; rank 1: exact max modulus; overall scale 2^+-600
+  C15.optima_qtt.kron          QTT-rank-1 tensors on [2^q]^d, q up to 10 (mode sizes 512 / 1024, up to 2^30 elements), any k,
+                               also under the binding cap r = 1: exact max modulus, values = entries at the mapped-back indices
+  C15.optima_qtt.capped.ordered  POSSIBLE DEFECT: optima_qtt with a binding accuracy e / rank cap r orders its two answers by
+                               the values of the crude QTT copy and then re-evaluates them on Y: y_min > y_max in about 2 %
+                               of the Gaussian cases at r = 1 (e.g. d=2 q=3 r=3 gauss seed=94 k=100 rcap=1)
   C15.optima_func.rank1        rank-1 coefficient tensor: the returned point lies in [-1,1]^d and |interpolant| there
                                is the maximum over the cube (per-mode maximisation by derivative roots + end points +
                                a 2001-point grid, relative tolerance 1e-6); k = 1 for arbitrary mode polynomials,
@@ -31,6 +41,13 @@ Clauses:
   C15.optima_func.rank1.n2     KNOWN DEFECT: first mode of size 2 whose linear polynomial has its root inside
                                [-1,1], k >= 3: every candidate of the first mode is kept, the partial product at
                                the root is exactly 0 and the next step raises ValueError('Coefficient array is empty')
+
+Parameter coverage (audit): k (1 .. N+3, default-like 100), l2r, ret_all, to_orth, p; optima_qtt e (1e-14 .. 0.9) and r
+(int / float, binding 1, 2 and non-binding); optima_func_tt_beam k, k_loc (1, 2, 5), ret_all; every clause family also
+runs on exact re-scalings 2^mag of the tensor (mag = +-27, +-332, +-664; half of that for optima_tt, which squares the
+shifted tensor; optima_qtt's e is an ABSOLUTE per-core accuracy and is scaled along for mag < 0), on mode sizes
+300 / 520 (1030 thorough) and on d = 10 (12) with a full beam; the functional variant also on coefficient scales
+2^+-27, 2^+-100, a redundant rank-2 storage of the rank-1 tensor, d = 6 (8) and modes of size 1.
 """
 import numpy as np
 import teneva
@@ -39,14 +56,34 @@ from rtc import gen
 
 BUDGET = (100, 800)
 BOUNDS = ('d = 2..4, n_k in 1..4 (5 thorough), ranks 1..4, kinds gauss / int / ties / signs / const / zero, '
-          'k in {1, 2, 3, N-1, N, N+3} (N = number of elements), both sweep directions; qtt: d <= 3, q <= 2 (3 thorough); '
-          'functional: d = 2..3, n_k in 2..6, k in {1, 2, 3, 10}')
+          'k in {1, 2, 3, N-1, N, N+3} (N = number of elements), both sweep directions, to_orth False with p in {None, 0, 5, -3, stab}; '
+          'exact re-scalings 2^mag, mag in {+-27, +-332, +-664} (optima_tt: half); mode sizes 300 / 520 (1030 thorough), '
+          'd = 10 (12) full beam; d = 20 / 70 (64, 200, 500 thorough) ranks 1..3 without dense reference, scale 2^+-600; '
+          'qtt: d <= 3, q <= 3 dense, e in {1e-14 .. 0.9}, r cap in {1, 2, 16., 64, 100, 1e12}, QTT-rank-1 tensors with q <= 10; '
+          'functional: d = 2..6 (8), n_k in 1..6, k in {1, 2, 3, 10}, k_loc in {1, 2, 5}, coefficient scale 2^+-27, 2^+-100, '
+          'plain and redundant storage')
 
 EPS = np.finfo(float).eps
 EXACT = ('int', 'ties', 'signs', 'const', 'zero')
 
 
-def _tt(shape, r, kind, seed):
+def _scaled(Y, mag):
+    """Y * 2^mag exactly: the exponent is spread evenly over the cores, the remainder goes to core (mag mod d)."""
+    if not mag:
+        return Y
+    d = len(Y)
+    q, rem = divmod(int(mag), d) if mag >= 0 else (-((-int(mag)) // d), -((-int(mag)) % d))
+    Z = [G * 2. ** q for G in Y]
+    if rem:
+        Z[abs(rem) % d] = Z[abs(rem) % d] * 2. ** rem
+    return Z
+
+
+def _tt(shape, r, kind, seed, mag=0):
+    return _scaled(_tt0(shape, r, kind, seed), mag)
+
+
+def _tt0(shape, r, kind, seed):
     shape = [int(k) for k in shape]
     if kind in ('gauss', 'int'):
         return gen.tt(shape, r, seed, kind)
@@ -96,10 +133,10 @@ def _entry_ok(y, D, i, Y):
 # ------------------------------------------------------------------ beam
 
 @clause('C15.beam.valid', funcs=('optima.optima_tt_beam',))
-def beam_valid(shape, r, kind, seed, k):
+def beam_valid(shape, r, kind, seed, k, mag=0):
     """optima_tt_beam for both sweep directions and any k: a valid multi-index; ret_all: <= k valid rows, row 0 is
     the single answer."""
-    Y = _tt(shape, r, kind, seed)
+    Y = _tt(shape, r, kind, seed, mag)
     for l2r in (True, False):
         i = teneva.optima_tt_beam(Y, k, l2r=l2r)
         msg = _index_ok(i, shape)
@@ -118,10 +155,10 @@ def beam_valid(shape, r, kind, seed, k):
 
 
 @clause('C15.beam.full', funcs=('optima.optima_tt_beam',))
-def beam_full(shape, r, kind, seed, extra):
+def beam_full(shape, r, kind, seed, extra, mag=0):
     """k = number of elements + extra: nothing is pruned, the entry at the returned index has maximum modulus
     (both sweep directions); all ret_all rows are distinct multi-indices."""
-    Y = _tt(shape, r, kind, seed)
+    Y = _tt(shape, r, kind, seed, mag)
     D = gen.dense(Y)
     k = D.size + extra
     for l2r in (True, False):
@@ -138,10 +175,62 @@ def beam_full(shape, r, kind, seed, extra):
     return PASS
 
 
+@clause('C15.beam.no_orth', funcs=('optima.optima_tt_beam',))
+def beam_no_orth(shape, r, kind, seed, k, p, mag=0, untouched=False):
+    """optima_tt_beam(to_orth=False, p=...) (the tensor is used as it is, p is the power-of-two exponent of an
+    external scale): a valid multi-index for every k, both directions; ret_all rows valid, <= k, row 0 = the answer;
+    with k >= number of elements the entry at the index has the maximum modulus of the tensor AS IT WAS BEFORE THE
+    CALL and the beam holds every multi-index once.  p: None (default), an int, or 'stab' (the cores are passed the
+    way orthogonalize(use_stab=True) leaves them: max-modulus of every core in [1, 2), the total exponent in p).
+    k <= 0 stands for k = number of elements - k."""
+    Y = _tt(shape, r, kind, seed, mag)
+    N = int(np.prod(shape))
+    kk = N - k if k <= 0 else k
+
+    def prep():
+        Yc, pp = [G.copy() for G in Y], p
+        if p == 'stab':
+            pp = 0
+            for j, G in enumerate(Yc):
+                m = np.abs(G).max()
+                if m > 0:
+                    ex = int(np.floor(np.log2(m)))
+                    Yc[j], pp = G / 2. ** ex, pp + ex
+        return Yc, pp
+
+    for l2r in (True, False):
+        Yc, pp = prep()
+        Dc, tol, snap = gen.dense(Yc), _tol(Yc), gen.snapshot(Yc)          # reference BEFORE the call
+        i = teneva.optima_tt_beam(Yc, kk, l2r=l2r, to_orth=False, p=pp)
+        changed = gen.snapshot(Yc) != snap
+        msg = _index_ok(i, shape)
+        if msg:
+            return FAIL(f'l2r={l2r}: {msg}')
+        Yc, pp = prep()
+        I = teneva.optima_tt_beam(Yc, kk, l2r=l2r, ret_all=True, to_orth=False, p=pp)
+        if I.ndim != 2 or I.shape[1] != len(shape) or not 1 <= I.shape[0] <= kk:
+            return FAIL(f'l2r={l2r}: ret_all shape {I.shape} for k={kk}')
+        for row in I:
+            msg = _index_ok(row, shape)
+            if msg:
+                return FAIL(f'l2r={l2r}, ret_all: {msg}')
+        if not np.array_equal(I[0], i):
+            return FAIL(f'l2r={l2r}: first ret_all row {I[0].tolist()} != single answer {i.tolist()}')
+        if kk >= N:
+            v, m = Dc[tuple(i)], np.abs(Dc).max()
+            if not (abs(v) == m if kind in EXACT else abs(v) >= m - tol):
+                return FAIL(f'l2r={l2r}, p={pp}: |D[{i.tolist()}]| = {abs(v)!r} < max |D| = {m!r}')
+            if I.shape[0] != N or len({tuple(row) for row in I.tolist()}) != N:
+                return FAIL(f'l2r={l2r}: full beam holds {I.shape[0]} rows, expected {N} distinct ones')
+        if untouched and changed:
+            return FAIL(f'l2r={l2r}: optima_tt_beam(to_orth=False) changed the cores of its argument')
+    return PASS
+
+
 @clause('C15.max.full', funcs=('optima.optima_tt_max', 'optima.optima_tt_beam'))
-def max_full(shape, r, kind, seed, extra):
+def max_full(shape, r, kind, seed, extra, mag=0):
     """optima_tt_max with a full beam: valid index, y equals the entry, |y| is the maximum modulus."""
-    Y = _tt(shape, r, kind, seed)
+    Y = _tt(shape, r, kind, seed, mag)
     D = gen.dense(Y)
     i, y = teneva.optima_tt_max(Y, D.size + extra)
     msg = _index_ok(i, shape)
@@ -154,7 +243,7 @@ def max_full(shape, r, kind, seed, extra):
 
 # ------------------------------------------------------------------ optima_tt
 
-def _minmax_valid(res, D, Y, shape):
+def _minmax_valid(res, D, Y, shape, ordered=True):
     i_min, y_min, i_max, y_max = res
     for nm, i, y in (('min', i_min, y_min), ('max', i_max, y_max)):
         msg = _index_ok(i, shape)
@@ -162,7 +251,7 @@ def _minmax_valid(res, D, Y, shape):
             return f'i_{nm}: {msg}'
         if not _entry_ok(y, D, i, Y):
             return f'y_{nm} = {y!r} != D[{np.asarray(i).tolist()}] = {D[tuple(np.asarray(i))]!r}'
-    if not y_min <= y_max:
+    if ordered and not y_min <= y_max:
         return f'y_min = {y_min!r} > y_max = {y_max!r}'
     return None
 
@@ -187,10 +276,10 @@ def _minmax_exact(res, D, Y, kind):
 
 
 @clause('C15.optima_tt.valid', funcs=('optima.optima_tt', 'optima.optima_tt_max'))
-def optima_tt_valid(shape, r, kind, seed, k):
+def optima_tt_valid(shape, r, kind, seed, k, mag=0):
     """optima_tt for any k: indices inside the bounds, reported values equal the entries there, y_min <= y_max;
     optima_tt_max likewise."""
-    Y = _tt(shape, r, kind, seed)
+    Y = _tt(shape, r, kind, seed, mag)
     D = gen.dense(Y)
     msg = _minmax_valid(teneva.optima_tt(Y, k), D, Y, shape)
     if msg:
@@ -203,9 +292,9 @@ def optima_tt_valid(shape, r, kind, seed, k):
 
 
 @clause('C15.optima_tt.full', funcs=('optima.optima_tt', 'optima.optima_tt_max', 'optima.optima_tt_beam'))
-def optima_tt_full(shape, r, kind, seed, extra):
+def optima_tt_full(shape, r, kind, seed, extra, mag=0):
     """optima_tt with k >= number of elements reports the true minimum and maximum."""
-    Y = _tt(shape, r, kind, seed)
+    Y = _tt(shape, r, kind, seed, mag)
     D = gen.dense(Y)
     res = teneva.optima_tt(Y, D.size + extra)
     msg = _minmax_valid(res, D, Y, shape) or _minmax_exact(res, D, Y, kind)
@@ -213,10 +302,10 @@ def optima_tt_full(shape, r, kind, seed, extra):
 
 
 @clause('C15.rank1.max_modulus', funcs=('optima.optima_tt_beam', 'optima.optima_tt_max', 'optima.optima_tt'))
-def rank1_max_modulus(shape, kind, seed, k):
+def rank1_max_modulus(shape, kind, seed, k, mag=0):
     """Rank-1 tensors, any k >= 1: the max-modulus entry is found by optima_tt_beam (both directions), by
     optima_tt_max, and is one of the two answers of optima_tt."""
-    Y = _tt(shape, 1, kind, seed)
+    Y = _tt(shape, 1, kind, seed, mag)
     D = gen.dense(Y)
     for l2r in (True, False):
         i = teneva.optima_tt_beam(Y, k, l2r=l2r)
@@ -250,29 +339,60 @@ def optima_tt_rank1_opposite(shape, kind, seed, k):
 
 # ------------------------------------------------------------------ quantised variant
 
+def _qtt_kw(e, rcap):
+    kw = {}
+    if e is not None:
+        kw['e'] = e
+    if rcap is not None:
+        kw['r'] = rcap
+    return kw
+
+
 @clause('C15.optima_qtt.valid', funcs=('optima.optima_qtt', 'grid.ind_qtt_to_tt', 'act_one.tt_to_qtt'))
-def optima_qtt_valid(d, q, r, kind, seed, k):
+def optima_qtt_valid(d, q, r, kind, seed, k, mag=0, e=None, rcap=None):
     """optima_qtt on [2^q]^d for any k: TT multi-indices inside the bounds, values equal the entries, ordered."""
     shape = [2 ** q] * d
-    Y = _tt(shape, r, kind, seed)
+    Y = _tt(shape, r, kind, seed, mag)
     if any(not np.any(G) for G in Y):
         return SKIP('exactly-zero core: tt_to_qtt returns NaN (C11 defect)')
     D = gen.dense(Y)
-    msg = _minmax_valid(teneva.optima_qtt(Y, k), D, Y, shape)
+    snap = gen.snapshot(Y)
+    res = teneva.optima_qtt(Y, k, **_qtt_kw(e, rcap))
+    if gen.snapshot(Y) != snap:
+        return FAIL('optima_qtt changed its argument')
+    # with a binding accuracy / rank cap the order of the two answers is a separate clause (C15.optima_qtt.capped.ordered)
+    msg = _minmax_valid(res, D, Y, shape, ordered=(e is None and rcap is None))
     return FAIL(msg) if msg else PASS
 
 
+@clause('C15.optima_qtt.capped.ordered', funcs=('optima.optima_qtt',))
+def optima_qtt_capped_ordered(d, q, r, kind, seed, k, e=None, rcap=None, mag=0):
+    """optima_qtt with a binding accuracy e / rank cap r (the QTT copy is only a crude approximation): the reported
+    minimum still does not exceed the reported maximum (both are entries of Y itself)."""
+    shape = [2 ** q] * d
+    Y = _tt(shape, r, kind, seed, mag)
+    if any(not np.any(G) for G in Y):
+        return SKIP('exactly-zero core')
+    D = gen.dense(Y)
+    i_min, y_min, i_max, y_max = teneva.optima_qtt(Y, k, **_qtt_kw(e, rcap))
+    if _index_ok(i_min, shape) or _index_ok(i_max, shape):
+        return FAIL(_index_ok(i_min, shape) or _index_ok(i_max, shape))
+    return check(D[tuple(i_min)] <= D[tuple(i_max)] and y_min <= y_max,
+                 f'reported minimum {y_min!r} at {np.asarray(i_min).tolist()} exceeds reported maximum {y_max!r} at '
+                 f'{np.asarray(i_max).tolist()} (true min {D.min()!r}, max {D.max()!r})')
+
+
 @clause('C15.optima_qtt.full', funcs=('optima.optima_qtt', 'optima.optima_tt', 'grid.ind_qtt_to_tt'))
-def optima_qtt_full(d, q, r, kind, seed, extra):
+def optima_qtt_full(d, q, r, kind, seed, extra, mag=0, e=None, rcap=None):
     """optima_qtt with k >= number of elements: exact minimum and maximum (integer tensors: exactly; Gaussian:
     within the QTT accuracy 1e-9 ||D||), the same values as optima_tt."""
     shape = [2 ** q] * d
-    Y = _tt(shape, r, kind, seed)
+    Y = _tt(shape, r, kind, seed, mag)
     if any(not np.any(G) for G in Y):
         return SKIP('exactly-zero core: tt_to_qtt returns NaN (C11 defect)')
     D = gen.dense(Y)
     k = D.size + extra
-    res = teneva.optima_qtt(Y, k)
+    res = teneva.optima_qtt(Y, k, **_qtt_kw(e, rcap))        # e / rcap: only non-binding values in this clause
     msg = _minmax_valid(res, D, Y, shape)
     if msg:
         return FAIL(msg)
@@ -305,6 +425,107 @@ def optima_qtt_reject(shape, seed):
     except ValueError:
         raised = True
     return check(raised != ok, f'shape {shape}: raised={raised}')
+
+
+# ------------------------------------------------------------------ many modes / rank 1 without a dense reference
+
+def _chain(Y, i):
+    """Entry Y[i] and the entry of the chain of |cores| (rounding scale) by own left-to-right products."""
+    v = np.ones((1, 1))
+    a = np.ones((1, 1))
+    for G, ik in zip(Y, i):
+        v = v @ G[:, int(ik), :]
+        a = a @ np.abs(G[:, int(ik), :])
+    return float(v[0, 0]), float(a[0, 0])
+
+
+@clause('C15.many_modes', funcs=('optima.optima_tt_beam', 'optima.optima_tt_max', 'optima.optima_tt'))
+def many_modes(d, n, r, kind, seed, k, mag=0):
+    """d up to a few hundred (more elements than int64 / float can count), any k: indices inside the bounds, the
+    reported values equal the entries (own chain product), y_min <= y_max; for r = 1 additionally the max-modulus
+    entry prod_k max_i |v_k[i]| is found exactly by optima_tt_beam (both directions), optima_tt_max and optima_tt."""
+    shape = [int(n)] * d if isinstance(n, int) else [int(n[j % len(n)]) for j in range(d)]
+    Y = _tt(shape, r, kind, seed, mag)
+    snap = gen.snapshot(Y)
+    best = None
+    if r == 1:
+        best = 1.
+        for G in Y:
+            best = best * float(np.abs(G).max())
+        if not (np.isfinite(best) and (best == 0. or best > 1e-290)):
+            return SKIP('max-modulus entry not representable')
+
+    def is_best(i):
+        v, a = _chain(Y, i)
+        return abs(v) == best if kind in EXACT and best < 2. ** 53 else abs(v) >= best * (1. - 64. * d * EPS)
+
+    def entry_ok(y, i):
+        v, a = _chain(Y, i)
+        return gen.close(y, v, a + 1e-300, c=64. * d)
+
+    for l2r in (True, False):
+        i = teneva.optima_tt_beam(Y, k, l2r=l2r)
+        msg = _index_ok(i, shape)
+        if msg:
+            return FAIL(f'beam l2r={l2r}: {msg}')
+        if r == 1 and not is_best(i):
+            return FAIL(f'beam l2r={l2r}, k={k}: |entry| = {abs(_chain(Y, i)[0])!r} < max modulus {best!r}')
+    i, y = teneva.optima_tt_max(Y, k)
+    msg = _index_ok(i, shape)
+    if msg:
+        return FAIL('optima_tt_max: ' + msg)
+    if not entry_ok(y, i):
+        return FAIL(f'optima_tt_max: y = {y!r} != entry {_chain(Y, i)[0]!r}')
+    if r == 1 and not is_best(i):
+        return FAIL(f'optima_tt_max k={k}: |y| = {abs(y)!r} < max modulus {best!r}')
+    i_min, y_min, i_max, y_max = teneva.optima_tt(Y, k)
+    for nm, i, y in (('min', i_min, y_min), ('max', i_max, y_max)):
+        msg = _index_ok(i, shape)
+        if msg:
+            return FAIL(f'optima_tt i_{nm}: {msg}')
+        if not entry_ok(y, i):
+            return FAIL(f'optima_tt: y_{nm} = {y!r} != entry {_chain(Y, i)[0]!r}')
+    if not y_min <= y_max:
+        return FAIL(f'optima_tt: y_min = {y_min!r} > y_max = {y_max!r}')
+    if r == 1 and not is_best(i_max if abs(y_max) >= abs(y_min) else i_min):
+        return FAIL(f'optima_tt k={k}: max(|y_min|, |y_max|) = {max(abs(y_min), abs(y_max))!r} < max modulus {best!r}')
+    if gen.snapshot(Y) != snap:
+        return FAIL('the argument was changed')
+    return PASS
+
+
+@clause('C15.optima_qtt.kron', funcs=('optima.optima_qtt', 'grid.ind_qtt_to_tt', 'act_one.tt_to_qtt'))
+def optima_qtt_kron(d, q, seed, k, kind, rcap=None, mag=0):
+    """Rank-1 tensor on [2^q]^d (q up to 10) whose mode vectors are Kronecker products of q two-vectors, i.e. the QTT
+    copy has rank 1 as well (also under the cap r = 1): for every k the max-modulus one of optima_qtt's two answers is
+    the true max-modulus entry prod max|.|, both values equal the entries at the (mapped-back) indices, ordered."""
+    g = gen.rng('C15.kron', d, q, seed, kind)
+    Y, best = [], 1.
+    for _ in range(d):
+        v = np.ones(1)
+        for _ in range(q):
+            w = g.integers(1, 4, size=2).astype(float) * g.choice([-1., 1.], size=2) if kind == 'int' else g.normal(size=2)
+            if abs(w[0]) == abs(w[1]):                 # unique maximiser per bit (ties: see the small cases)
+                w[1] = np.sign(w[1]) * (abs(w[0]) % 3 + 1)
+            v = np.kron(v, w)
+            best *= float(np.abs(w).max())
+        Y.append(v.reshape(1, -1, 1))
+    Y = _scaled(Y, mag)
+    best *= 2. ** mag
+    shape = [2 ** q] * d
+    i_min, y_min, i_max, y_max = teneva.optima_qtt(Y, k, **_qtt_kw(None, rcap))
+    for nm, i, y in (('min', i_min, y_min), ('max', i_max, y_max)):
+        msg = _index_ok(i, shape)
+        if msg:
+            return FAIL(f'i_{nm}: {msg}')
+        v = float(np.prod([Y[j][0, int(i[j]), 0] for j in range(d)]))
+        if not gen.close(y, v, abs(v), c=64. * d):
+            return FAIL(f'y_{nm} = {y!r} != entry {v!r} at {np.asarray(i).tolist()}')
+    if not y_min <= y_max:
+        return FAIL(f'y_min = {y_min!r} > y_max = {y_max!r}')
+    top = max(abs(y_min), abs(y_max))
+    ok = top == best if kind == 'int' else top >= best * (1. - 64. * d * q * EPS)
+    return check(ok, f'k={k}: max(|y_min|, |y_max|) = {top!r} < max modulus {best!r}')
 
 
 # ------------------------------------------------------------------ functional variant
@@ -348,21 +569,44 @@ def _func_check(x, cs):
     return None
 
 
+def _func_tt(cs, rep='plain', mag=0):
+    """The rank-1 coefficient tensor of the mode polynomials cs; rep = 'redundant': the same tensor stored with
+    TT-ranks 2 (all-equal blocks, 2^(d-1) identical paths); mag: exact overall factor 2^mag on the coefficients."""
+    d = len(cs)
+    if rep == 'plain':
+        A = [c.reshape(1, -1, 1).copy() for c in cs]
+    else:
+        A = []
+        for j, c in enumerate(cs):
+            r1, r2 = (1 if j == 0 else 2), (1 if j == d - 1 else 2)
+            G = np.empty((r1, len(c), r2))
+            G[:] = (c if j == 0 else c / 2.)[None, :, None]
+            A.append(G)
+    return _scaled(A, mag)
+
+
 @clause('C15.optima_func.rank1', funcs=('optima_func.optima_func_tt_beam', 'optima_func._find_poly_max', 'optima_func._step_top_k'))
-def optima_func_rank1(n, seed, kind, fam, k):
+def optima_func_rank1(n, seed, kind, fam, k, k_loc=None, mag=0, rep='plain'):
     """Rank-1 coefficient tensor: the returned point is in [-1,1]^d and maximises |interpolant| (k = 1 for
-    arbitrary mode polynomials; k > 1 for mode polynomials without roots in [-1, 1])."""
+    arbitrary mode polynomials; k > 1 for mode polynomials without roots in [-1, 1]); any k_loc >= 1, any overall
+    scale of the coefficients, TT-rank-1 storage or a redundant rank-2 storage of the same tensor; ret_all: at most k
+    rows inside the cube, row 0 = the answer; the argument is left unchanged."""
     if k > 1 and fam != 'dominant':
         return SKIP('k > 1 with roots inside the cube: see C15.optima_func.rank1.n2')
     cs = _func_coefs(n, seed, kind, fam)
-    A = [c.reshape(1, -1, 1).copy() for c in cs]
-    x = teneva.optima_func_tt_beam(A, k=k)
+    A = _func_tt(cs, rep, mag)
+    snap = gen.snapshot(A)
+    kw = {} if k_loc is None else dict(k_loc=k_loc)
+    x = teneva.optima_func_tt_beam(A, k=k, **kw)
     msg = _func_check(x, cs)
     if msg:
         return FAIL(msg)
-    X = teneva.optima_func_tt_beam(A, k=k, ret_all=True)
-    if X.ndim != 2 or X.shape[1] != len(n) or not np.array_equal(X[0], x) or not np.all(np.abs(X) <= 1.):
+    X = teneva.optima_func_tt_beam(A, k=k, ret_all=True, **kw)
+    if X.ndim != 2 or X.shape[1] != len(n) or not 1 <= X.shape[0] <= k or not np.array_equal(X[0], x) \
+            or not np.all(np.abs(X) <= 1.):
         return FAIL(f'ret_all: shape {X.shape}, first row {X[0].tolist()} vs {x.tolist()}')
+    if gen.snapshot(A) != snap:
+        return FAIL('optima_func_tt_beam changed its argument')
     return PASS
 
 
@@ -444,6 +688,88 @@ def cases(tier, seed):
         p = dict(shape=shape, r=int(g.integers(1, 5)), kind=kinds[int(g.integers(4))], seed=s(), extra=int(g.integers(0, 4)))
         yield 'C15.beam.full', p
         yield 'C15.optima_tt.full', p
+    # ---- parameter / regime coverage (audit): overall scale 2^mag (exact re-scaling, the integer kinds stay exact).
+    # beam / max work on the stabilised orthogonalisation; optima_tt squares the shifted tensor (half the exponent range)
+    sc_shapes = [[3, 4], [2, 3, 2], [2, 2, 2, 2]] + ([[4, 1, 3], [5, 5], [2, 2, 3, 2]] if big else [])
+    for shape in sc_shapes:
+        N = int(np.prod(shape))
+        for kind in ('gauss', 'int', 'ties', 'signs', 'const', 'zero') if big else ('gauss', 'int', 'ties'):
+            for r in ((1, 2, 3) if big else (1, 3)):
+                for mag in ((-664, -332, -27, -13, 13, 27, 332, 664) if big else (-332, -27, 27, 332)):
+                    p = dict(shape=shape, r=r, kind=kind, seed=1 + abs(mag) % 3, extra=0, mag=mag)
+                    yield 'C15.beam.full', p
+                    yield 'C15.max.full', p
+                    yield 'C15.optima_tt.full', dict(p, mag=mag // 2)
+                    for k in ((1, 2) if big else (2,)):
+                        yield 'C15.beam.valid', dict(shape=shape, r=r, kind=kind, seed=1, k=k, mag=mag)
+                        yield 'C15.optima_tt.valid', dict(shape=shape, r=r, kind=kind, seed=1, k=k, mag=mag // 2)
+                    if r == 1:
+                        for k in ((1, 2, N) if big else (1,)):
+                            yield 'C15.rank1.max_modulus', dict(shape=shape, kind=kind, seed=2, k=k, mag=mag // 2)
+    for kind in ('gauss', 'int'):                       # squares of the partial products beyond the double range
+        for mag in (-664, 664):
+            p = dict(shape=[3, 4], r=2, kind=kind, seed=3, extra=0, mag=mag)
+            yield 'C15.beam.full', p
+            yield 'C15.max.full', p
+    # large mode sizes (> 255, >= 512) and more modes with a full beam
+    lg_shapes = [[300, 2], [2, 520], [260, 3, 2], [2] * 10] + ([[520, 520], [2] * 12, [3] * 7, [1030, 2, 2]] if big else [])
+    for shape in lg_shapes:
+        for kind in ('gauss', 'int', 'ties'):
+            for r in (1, 2):
+                p = dict(shape=shape, r=r, kind=kind, seed=1, extra=0)
+                yield 'C15.beam.full', p
+                yield 'C15.max.full', p
+                yield 'C15.optima_tt.full', p
+                yield 'C15.beam.valid', dict(shape=shape, r=r, kind=kind, seed=1, k=3)
+    # to_orth=False / p (the tensor is used as it is)
+    for shape in ([2, 2], [3, 4], [4, 1], [2, 3, 2], [2, 2, 2, 2]) + (([3, 1, 3], [4, 2, 3], [5, 5]) if big else ()):
+        for kind in kinds:
+            for r in (1, 3):
+                for p_ in (None, 0, 5, -3, 'stab'):
+                    for k in ((1, 2, 0, -3) if big or kind in ('gauss', 'int') else (1, 0)):
+                        for mag in ((0, -27, 332) if big else (0, 332) if p_ in (None, 'stab') and k < 2 else (0,)):
+                            yield 'C15.beam.no_orth', dict(shape=shape, r=r, kind=kind, seed=1 + (k + r) % 2, k=k, p=p_, mag=mag)
+    # DOUBTFUL (disabled): optima_tt_beam(to_orth=False) multiplies the boundary core of the CALLER's tensor by 2^(p/d)
+    # in place (the undocumented parameters to_orth / p; `Q *= 2**p0` on a reshape view of Y[0] / Y[-1]).
+    # yield 'C15.beam.no_orth', dict(shape=[3, 4], r=2, kind='gauss', seed=1, k=100, p=None, untouched=True)
+    # many modes: d >= 63 (element count beyond int64), no dense reference
+    for d in ((20, 64, 70, 200, 500) if big else (20, 70)):
+        for n in ((2, 3, [2, 3, 1]) if big else (2, [2, 3, 1])):
+            for r in (1, 2, 3):
+                for kind in ('gauss', 'int'):
+                    if kind == 'int' and r > 1 and d > 20:
+                        continue                         # products of integer matrices beyond 2^53
+                    for k in ((1, 3, 10) if r == 1 else (3,)):
+                        for mag in ((0, -600, 600) if r == 1 and k == 3 and kind == 'gauss' else (0,)):
+                            yield 'C15.many_modes', dict(d=d, n=n, r=r, kind=kind, seed=d + k, k=k, mag=mag)
+    # quantised variant: accuracy e / rank cap r given explicitly
+    for d, q in (((2, 2), (2, 3), (3, 2)) if big else ((2, 2), (2, 3))):
+        for kind in ('gauss', 'int', 'ties'):
+            for sd in ((1, 2, 3) if big else (1, 2)):
+                for (e, rcap) in ((1e-14, None), (None, 1e12), (None, 64), (1e-12, 100), (1e-13, 16.)):   # not binding
+                    yield 'C15.optima_qtt.full', dict(d=d, q=q, r=3, kind=kind, seed=sd, extra=0, e=e, rcap=rcap)
+                for mag in (-200, -27, 27, 200):      # e is an ABSOLUTE accuracy per TT-core: scaled along with the cores
+                    e = 1e-12 * 2. ** min(0, mag // d)
+                    yield 'C15.optima_qtt.full', dict(d=d, q=q, r=3, kind=kind, seed=sd, extra=0, mag=mag, e=e)
+                    yield 'C15.optima_qtt.full', dict(d=d, q=q, r=3, kind=kind, seed=sd, extra=0, mag=abs(mag))
+                    yield 'C15.optima_qtt.capped.ordered', dict(d=d, q=q, r=3, kind=kind, seed=sd, k=2, mag=mag, e=e)
+                for (e, rcap) in ((None, 1), (None, 2), (0.3, None), (0.9, 1), (None, 2.)):                # binding
+                    for k in (1, 3, 100):
+                        yield 'C15.optima_qtt.valid', dict(d=d, q=q, r=3, kind=kind, seed=sd, k=k, e=e, rcap=rcap)
+    for sd in range(1, 61 if big else 21):
+        for rcap in (1, 2):
+            yield 'C15.optima_qtt.capped.ordered', dict(d=2, q=3, r=3, kind=('gauss', 'int')[sd % 4 == 0], seed=sd, k=(1, 3, 100)[sd % 3], rcap=rcap)
+        yield 'C15.optima_qtt.capped.ordered', dict(d=2, q=2, r=3, kind='gauss', seed=sd, k=(1, 3, 100)[sd % 3], e=0.5)
+    yield 'C15.optima_qtt.capped.ordered', dict(d=2, q=3, r=3, kind='gauss', seed=94, k=100, rcap=1)   # fails (finding)
+    # quantised variant, large q (mode sizes 512, 1024; up to 2^30 elements): QTT-rank-1 tensors
+    for d in (2, 3):
+        for q in ((1, 2, 3, 5, 8, 9, 10) if big else (1, 9, 10) if d == 2 else (3, 10)):
+            for kind in ('gauss', 'int'):
+                for k in ((1, 2, 5) if big else (1, 3)):
+                    for rcap in (None, 1):
+                        yield 'C15.optima_qtt.kron', dict(d=d, q=q, seed=q + k, k=k, kind=kind, rcap=rcap)
+                yield 'C15.optima_qtt.kron', dict(d=d, q=q, seed=q, k=2, kind=kind, mag=-30)    # stays clear of e = 1e-12
+                yield 'C15.optima_qtt.kron', dict(d=d, q=q, seed=q, k=2, kind=kind, mag=60)
     # quantised variant
     for d in (1, 2, 3):
         for q in ((1, 2, 3) if big else (1, 2)):
@@ -474,6 +800,24 @@ def cases(tier, seed):
         yield 'C15.optima_func.rank1', dict(n=n, seed=s(), kind=('gauss', 'int')[rep % 2], fam='free', k=1)
         yield 'C15.optima_func.rank1', dict(n=n, seed=s(), kind=('gauss', 'int')[rep % 2], fam='dominant',
                                             k=int(g.choice([2, 3, 10])))
+    # functional variant: k_loc, overall scale of the coefficients, redundant rank-2 storage, more modes
+    for n in ([2, 2], [3, 4, 2], [5, 3, 4], [3, 2, 4, 3, 2, 3]) + (([6, 6], [4, 4, 4], [2] * 8) if big else ()):
+        for kind in ('gauss', 'int'):
+            for sd in ((1, 2, 3) if big else (1,)):
+                for k_loc in (1, 2, 5):
+                    yield 'C15.optima_func.rank1', dict(n=n, seed=sd, kind=kind, fam='free', k=1, k_loc=k_loc)
+                    for k in ((1, 3, 10) if big else (1, 3)):
+                        yield 'C15.optima_func.rank1', dict(n=n, seed=sd, kind=kind, fam='dominant', k=k, k_loc=k_loc)
+                for mag in (-100, -27, 27, 100):
+                    yield 'C15.optima_func.rank1', dict(n=n, seed=sd, kind=kind, fam='free', k=1, mag=mag)
+                    yield 'C15.optima_func.rank1', dict(n=n, seed=sd, kind=kind, fam='dominant', k=3, mag=mag)
+                yield 'C15.optima_func.rank1', dict(n=n, seed=sd, kind=kind, fam='free', k=1, rep='redundant')
+                for k in (1, 3):
+                    yield 'C15.optima_func.rank1', dict(n=n, seed=sd, kind=kind, fam='dominant', k=k, rep='redundant')
+    for n in ([1, 3], [3, 1], [2, 1, 3], [1, 1]):                  # a mode of size 1 is a constant mode
+        for mode in [j for j in range(len(n)) if n[j] == 1]:
+            for k in (1, 3):
+                yield 'C15.optima_func.rank1.constant_mode', dict(n=n, mode=mode, seed=1, k=k)
     for n in ([2, 2], [3, 4], [4, 2, 3]):
         for mode in range(len(n)):
             for k in (1, 3):
